@@ -745,9 +745,9 @@ def run(ctx):
         "harness/src/cmd_ops.rs, lean/Poulpy/Driver/Ops.lean (parsing / printing), vlib/c02.py (generator, comparison, Python oracle)",
     ]
     ctx.assumptions += [
-        "scratch.available() >= tmp_bytes assertions are not modelled (the harness supplies 64 KiB of scratch); scratch *content* is an explicit input (pattern scr)",
+        "scratch.available() >= tmp_bytes assertions are not modelled (the harness supplies 64 KiB of scratch); scratch *content* is an explicit input (pattern scr) that no operation may depend on",
         "all pool entries have the module's ring degree (the n-mismatch assertions are not exercised)",
-        "shift / normalisation theorems take the value specification of the per-column kernel as an explicit hypothesis (names *_modulo_norm) until Props/C08 exports it",
+        "glwe_normalize (cross radix) and glwe_lsh_assign theorems take the value specification of the per-column kernel as an explicit hypothesis (names *_modulo_norm); glwe_rsh / glwe_normalize_assign use the C08 value theorems; glwe_lsh / lsh_add / lsh_sub have no theorem (correspondence + oracle only)",
     ]
     ok, failures = ctx.proof_gate(["Poulpy.Props.C02"])
     broken = list(failures)
